@@ -63,6 +63,9 @@ pub struct Op {
     /// builder index; usize::MAX-free: the final comparison is op "check"
     pub b: usize,
     pub call: Option<Call>,
+    /// perform the call through a BinArchiveWriter attached at the address (another route to the same content)
+    #[serde(default)]
+    pub via_stream: bool,
 }
 
 // "MID_Ａ" / "MID_ア": code-point order and Shift-JIS byte order disagree for this pair
@@ -272,11 +275,11 @@ fn plan(r: &mut Rng, big: bool, builders: usize) -> Vec<Op> {
                     break;
                 }
             }
-            ops.push(Op { b, call: Some(queues[b][pos[b]].clone()) });
+            ops.push(Op { b, call: Some(queues[b][pos[b]].clone()), via_stream: r.chance(1, 3) });
             pos[b] += 1;
         }
     }
-    ops.push(Op { b: 0, call: None });
+    ops.push(Op { b: 0, call: None, via_stream: false });
     ops
 }
 
@@ -320,9 +323,53 @@ fn in_domain(c: &Content) -> bool {
         && c.labels.values().all(|v| v.iter().all(|s| bin_image::sjis_lossless(s)))
 }
 
-fn apply(ctx: &mut RunCtx, b: &mut Builder, call: &Call) -> Step<()> {
+fn apply(ctx: &mut RunCtx, b: &mut Builder, call: &Call, via_stream: bool) -> Step<()> {
     let a = &mut b.a;
     let m = &mut b.m;
+    if via_stream {
+        // the stream writer's route to the same calls
+        use mila::BinArchiveWriter;
+        let routed: Option<(bool, bool)> = match call {
+            Call::WriteBytes { a: addr, data } if !data.is_empty() => Some((
+                ctx.mila("w.write_bytes", || BinArchiveWriter::new(a, *addr).write_bytes(data).is_ok())?,
+                m.write_bytes(*addr, data).is_ok(),
+            )),
+            Call::WriteString { a: addr, s } => Some((
+                ctx.mila("w.write_string", || BinArchiveWriter::new(a, *addr).write_string(Some(s)).is_ok())?,
+                m.write_string(*addr, Some(s)).is_ok(),
+            )),
+            Call::WritePointer { a: addr, v } => Some((
+                ctx.mila("w.write_pointer", || BinArchiveWriter::new(a, *addr).write_pointer(Some(*v)).is_ok())?,
+                m.write_pointer(*addr, Some(*v)).is_ok(),
+            )),
+            Call::DeleteString { a: addr } => Some((
+                ctx.mila("w.write_string", || BinArchiveWriter::new(a, *addr).write_string(None).is_ok())?,
+                m.write_string(*addr, None).is_ok(),
+            )),
+            Call::DeletePointer { a: addr } => Some((
+                ctx.mila("w.write_pointer", || BinArchiveWriter::new(a, *addr).write_pointer(None).is_ok())?,
+                m.write_pointer(*addr, None).is_ok(),
+            )),
+            Call::WriteLabel { a: addr, s } => Some((
+                ctx.mila("w.write_label", || BinArchiveWriter::new(a, *addr).write_label(s).is_ok())?,
+                m.write_label(*addr, s).is_ok(),
+            )),
+            Call::AllocEnd { n } => {
+                ctx.mila("w.allocate_at_end", || BinArchiveWriter::new(a, 0).allocate_at_end(*n))?;
+                m.allocate_at_end(*n);
+                Some((true, true))
+            }
+            _ => None,
+        };
+        if let Some((got, want)) = routed {
+            if got != want {
+                b.valid = false;
+                ctx.probe("foreign_accept_reject_disagreement");
+            }
+            ctx.probe("call_routed_through_stream_writer");
+            return Ok(());
+        }
+    }
     let (got, want): (bool, bool) = match call {
         Call::AllocEnd { n } => {
             ctx.mila("allocate_at_end", || a.allocate_at_end(*n))?;
@@ -736,8 +783,9 @@ fn run(cfg: &Value, ctx: &mut RunCtx) -> Step<()> {
                     Call::DeleteString { .. } | Call::DeletePointer { .. } | Call::DeleteLabel { .. } | Call::DeleteLabels { .. } => "delete",
                     _ => "write",
                 };
-                apply(ctx, &mut builders[op.b], other)?;
-                ctx.outcome(kind, "done", "");
+                apply(ctx, &mut builders[op.b], other, op.via_stream)?;
+                // the builder index is part of the fingerprint: distinct fingerprints = distinct interleavings
+                ctx.outcome(&format!("b{}:{}", op.b, kind), "done", "");
                 if kind == "structural" {
                     ctx.fault("rehash_by_rebuild");
                 }
